@@ -310,7 +310,10 @@ def run_text(prop, m, text, acc, cs=None, name="", mfree=False, record=True):
     for v in viol:
         if v["prop"] != prop:
             continue
-        mechs = [] if mfree else v["mechs"]
+        # mechanism-free strata cannot trigger the sub-slot / calendar mechanisms by construction, so a violation there is
+        # reported without them; the leftover of a task that was given up is an exact predicate, not a heuristic, and
+        # can occur in any dialect
+        mechs = ([x for x in v["mechs"] if v["clause"] == "work-booked-for-unscheduled-task"] if mfree else v["mechs"])
         rp = None
         if record:
             rp = dict(property=prop, clause=v["clause"], seed=cs, dialect=name, mechanism_free=mfree, model=m, text=text,
